@@ -12,6 +12,10 @@
 // "<lin>~<to_string(lin)>" (the text lra_theory uses as sharing key). For the compound assignments the returned copy is
 // compared with the object; a difference is printed as "<state>#ret=<returned>".
 // Entries with a zero coefficient that the C++ leaves in the map ARE printed (they are part of the comparison).
+//
+// Two more line forms print single values with the C++ printers (compared with base/ArithStr.v as strings):
+//   str_rat <n/d>            ->  to_string(rational)
+//   str_irat <n/d>,<n/d>     ->  to_string(inf_rational)
 #include <iostream>
 #include <sstream>
 #include <string>
@@ -19,6 +23,7 @@
 #include <map>
 #define private public
 #include "rational.h"
+#include "inf_rational.h"
 #include "lin.h"
 #undef private
 
@@ -87,6 +92,20 @@ int main()
     std::string line;
     while (std::getline(std::cin, line))
     {
+        if (line.rfind("str_rat ", 0) == 0)
+        {
+            std::cout << to_string(in_rat(line.substr(8))) << std::endl;
+            continue;
+        }
+        if (line.rfind("str_irat ", 0) == 0)
+        {
+            auto p = line.find(',');
+            inf_rational v;
+            v.rat = in_rat(line.substr(9, p - 9));
+            v.inf = in_rat(line.substr(p + 1));
+            std::cout << to_string(v) << std::endl;
+            continue;
+        }
         auto steps = split(line, '|');
         std::string res;
         lin cur;
